@@ -339,6 +339,7 @@ func groupSamRecords(sam io.Reader, cHeader chan biogosam.Header, chnl chan samR
 	s, err := biogosam.NewReader(sam)
 	if err != nil {
 		cerr <- err
+		return
 	}
 
 	cHeader <- *s.Header()
@@ -361,6 +362,7 @@ func groupSamRecords(sam io.Reader, cHeader chan biogosam.Header, chnl chan samR
 		} else if err != nil {
 
 			cerr <- err
+			return
 
 		} else {
 			// if this read is unmapped, then skip it.
